@@ -905,4 +905,57 @@ def collapsed_edge(repo: Repo) -> RuleRun:
 collapsed_edge.rule_id = "C11.COLLAPSED-EDGE"
 
 
-RULES = [quad_map_rule, chop_coverage, chop_role, radial_convention, arc_rings, chain_source, mirror_pairing, trig_domain, fill_conformal, arc_side, affine_kinds, stack_chain, no_shared_parts, moved_once, transform_routing, axis_terms, mirror_matrix, arguments_untouched, arc_midpoint, scalar_amount, joint_cusps, no_exact_coordinates, grid_roles, collapsed_edge]
+def circle_test_symmetric(repo: Repo) -> RuleRun:
+    """'outer arcs lie on the intended circle' - and an ellipse keeps its splines: whether a spline-round quarter is a circle (and may
+    be written with arcs) is a symmetric closeness test of its two radii, |r_1 - r_2| < TOL - not a signed difference, which
+    declares every quarter with r_1 < r_2 a circle. In the sketch modules, a DIFFERENCE of two quantities compared with the
+    tolerance outside a raising guard (where one-sidedness is the point: 'outer must be larger than inner') is wrapped in abs / norm."""
+    r = RuleRun(PROP, "C11.CIRCLE-TEST-SYMMETRIC", floor=1, what="closeness of two quantities in the sketch modules is tested on the magnitude of their difference (abs / norm), not on the signed difference")
+    n = 0
+    for fn in sorted(repo.all_functions(), key=lambda f_: f_.qualname):
+        short = fn.module.name.split("classy_blocks.")[-1]
+        if not short.startswith("construct.flat.sketches"):
+            continue
+        for node in ast.walk(fn.node):
+            if not (isinstance(node, ast.Compare) and len(node.ops) == 1 and isinstance(node.ops[0], (ast.Lt, ast.LtE, ast.Gt, ast.GtE))):
+                continue
+            sides = [node.left, node.comparators[0]]
+            tol = [x for x in sides if (attr_chain(x) or "").split(".")[-1] in ("TOL", "VSMALL")]
+            if len(tol) != 1:
+                continue
+            other = sides[1] if tol[0] is sides[0] else sides[0]
+            n += 1
+            guard = False
+            p_ = parent(node)
+            while p_ is not None and p_ is not fn.node:
+                if isinstance(p_, ast.If) and any(isinstance(b, ast.Raise) for b in p_.body) and any(node is x for x in ast.walk(p_.test)):
+                    guard = True
+                p_ = parent(p_)
+            signed_difference = isinstance(other, ast.BinOp) and isinstance(other.op, ast.Sub)
+            r.check(
+                not signed_difference or guard,
+                fn,
+                f"'{ast.unparse(node)[:60]}'",
+                f"{fn.qualname}: '{ast.unparse(node)[:80]}' tests whether two quantities are equal on their SIGNED difference: it also holds whenever the first is smaller than the second by any amount - "
+                "an elliptical quarter with r_1 < r_2 is taken for a circle and its outer splines are replaced by arcs about a silently adjusted centre (the outline leaves the ellipse)",
+                node,
+                key=f"signed:{ast.unparse(other)[:40]}",
+            )
+    r.require(n >= 1, "no tolerance comparisons found in the sketch modules")
+    return r
+
+
+circle_test_symmetric.rule_id = "C11.CIRCLE-TEST-SYMMETRIC"
+
+
+def shear_sign(repo: Repo) -> RuleRun:
+    """'adjacent blocks share the vertices along their common faces' in the pipe joints, whose slanted ends are made by shearing. Same rule as C09.SHEAR-SIGN."""
+    from . import c09
+
+    return c09.shear_sign(repo, PROP, "C11.SHEAR-SIGN")
+
+
+shear_sign.rule_id = "C11.SHEAR-SIGN"
+
+
+RULES = [quad_map_rule, chop_coverage, chop_role, radial_convention, arc_rings, chain_source, mirror_pairing, trig_domain, fill_conformal, arc_side, affine_kinds, stack_chain, no_shared_parts, moved_once, transform_routing, axis_terms, mirror_matrix, arguments_untouched, arc_midpoint, scalar_amount, joint_cusps, no_exact_coordinates, grid_roles, collapsed_edge, circle_test_symmetric, shear_sign]
